@@ -160,7 +160,7 @@ def execute(trace, ctx):
                     attached[s] = True
                     # a species attached for the first time has no map; one that had a map, was detached and is attached
                     # again may or may not have kept it (the statement does not say): None = either outcome is in order
-                    mapped_at[s] = None if mapped_at.get(s) else False
+                    mapped_at[s] = None if (s in mapped_at and mapped_at[s] is not False) else False
                     ctx.op(kind, op["via"])
                 elif kind == "detach":
                     s = op["species"]
